@@ -32,6 +32,7 @@ ALL = {
     'C08': 'p_c08',
     'C09': 'p_c09',
     'C10': 'p_c10',
+    'C20': 'p_c20',
 }
 
 if __name__ == '__main__':
